@@ -571,6 +571,27 @@ def run(program, rep, tier):
                why='after process() a query still reports the components of '
                'the deleted entity')
 
+    # ---- "all of its components are removed AND NOTIFIED": the detach
+    # protocol of World (C02) at the sites of the teardown - on_remove and
+    # remove_handler decided by the component's own __events__
+    from rules import lifecycle as _lc
+    out_ = _lc.analyse_world(program, rep, 'C05', None, 'C05')
+    n_det = 0
+    for (rule_, fn_, text_, line_, kind_, table_), r_ in sorted(
+            out_['results'].items(), key=lambda kv: (kv[0][1], kv[0][3] or 0)):
+        if rule_ != 'protocol' or kind_ != 'detach' or fn_.split('.')[-1] \
+                not in tear:
+            continue
+        n_det += 1
+        s_ = f'desper/logic/world.py:{fn_}'
+        if r_['bad']:
+            rep.bad('C05.notified', s_, text_,
+                    'a component of a deleted entity is not notified / '
+                    f'unregistered on some path [{r_["bad"][0]["why"]}]',
+                    detail={'path': r_['bad'][0]['path']}, line=line_)
+        else:
+            rep.ok('C05.notified', s_, text_, 'every component removed by '
+                   'the teardown is notified and unregistered', line=line_)
     # ---- the identifier of an entity awaiting deletion is NOT free yet: an
     # automatic id is handed out only after a test on the row table itself
     # (entity_exists() denies pending entities) - C01's rule
